@@ -162,8 +162,8 @@ fn run_case_inner(c: &AgentCase) -> Vec<Failure> {
             let mut rng = Xoroshiro128StarStar::seed_from_u64(*seed);
             let params = NoiseAgentParams { tick_size: *tick, p_limit: *p_limit, p_market: *p_market, p_cancel: *p_cancel, trade_vol: 100, price_dist_mu: 0.0, price_dist_sigma: *sigma };
             let mut agents = NoiseAgent::new(10, *n, params);
-            env.place_order(Side::Bid, 1000, 0, Some(50 * tick)).unwrap();
-            env.place_order(Side::Ask, 1000, 0, Some(52 * tick)).unwrap();
+            env.place_order(Side::Bid, 10_000_000, 0, Some(50 * tick)).unwrap();
+            env.place_order(Side::Ask, 10_000_000, 0, Some(52 * tick)).unwrap();
             env.step(&mut rng);
             for s in 0..*steps {
                 let n0 = env.get_orders().len();
@@ -443,6 +443,13 @@ fn run_case_inner(c: &AgentCase) -> Vec<Failure> {
                 ag.update(&mut env, &mut rng);
                 let nn = *n as u32;
                 check_cancellations(&env, q0, &|t| t < nn, s as usize, &mut out);
+                let acted = (env.get_orders().len() - n0) + env.verif_transactions()[q0..].iter().filter(|ev| matches!(ev, Event::Cancellation { .. })).count();
+                if *rate == 0.0 && acted > 0 {
+                    out.push(fail("C16.zero_probability_never", format!("step {}: activity rate 0 but {} agents acted", s, acted)));
+                }
+                if *rate >= 1.0 && acted != *n {
+                    out.push(fail("C16.certain_probability_always", format!("step {}: activity rate {} but {} of {} agents acted (each places an order or cancels its live one)", s, rate, acted, n)));
+                }
                 for o in env.get_orders()[n0..].iter() {
                     if o.price % tick != 0 || o.price < lo * tick || o.price >= hi * tick {
                         out.push(fail("C16.random_range", format!("step {}: price {} outside the configured tick range [{}, {}) x {}", s, o.price, lo, hi, tick)));
@@ -528,6 +535,37 @@ pub fn search_agents(prop: &str, seed: u64) -> Option<(AgentCase, Vec<Failure>)>
         }
         // barely saturated demand: the probability is |demand * tanh(scale * M)| / n with n the NUMBER of traders
         cases.push(AgentCase::Momentum { path: vec![(1000, 1002), (1020, 1022), (1000, 1002), (1030, 1032)], n: 3, decay: 1.0, order_ratio: 0.0, seed, demand: 3.6 });
+    }
+    // seeded random parameterisations on top of the fixed family (tick sizes 1..10, probabilities in {0, (0,1), >= 1}, agent counts, paths)
+    {
+        use rand::Rng;
+        let mut g = Xoroshiro128StarStar::seed_from_u64(seed ^ 0xa9e7);
+        let probs = [0.0f32, 0.3, 0.7, 1.0, 1.5];
+        if prop == "C16" || prop == "any" {
+            for k in 0..24u64 {
+                cases.push(AgentCase::Noise { tick: g.gen_range(1..=10), sigma: [0.3, 1.0, 2.0][g.gen_range(0..3)], p_limit: probs[g.gen_range(0..5)], p_market: probs[g.gen_range(0..5)], p_cancel: probs[g.gen_range(0..5)],
+                                              n: g.gen_range(1..8), steps: 30, seed: seed + 100 + k });
+            }
+            for k in 0..16u64 {
+                let lo = g.gen_range(3..20u32);
+                cases.push(AgentCase::Random { tick: g.gen_range(1..=5), lo, hi: lo + g.gen_range(1..10), n: g.gen_range(1..10), rate: [0.0f32, 0.3, 0.6, 1.0, 1.2][g.gen_range(0..5)], steps: 50, seed: seed + 200 + k });
+            }
+            for k in 0..10u64 {
+                let tick = [1u32, 2, 5][g.gen_range(0..3)];
+                let bid = (80 + g.gen_range(0..40)) * tick;
+                cases.push(AgentCase::NoiseMarket { tick, bid, ask: bid + g.gen_range(1..5) * tick, sigma: [0.3, 1.0][g.gen_range(0..2)], n: g.gen_range(1..6), steps: 30, seed: seed + 300 + k });
+            }
+        }
+        for k in 0..16u64 {
+            let mut b = 1000u32;
+            let path: Vec<(u32, u32)> = (0..g.gen_range(5..10)).map(|_| { b = (b as i64 + [-40i64, -12, -6, 0, 0, 6, 12, 40][g.gen_range(0..8)]).max(500) as u32; (b, b + 2) }).collect();
+            cases.push(AgentCase::Momentum { path, n: g.gen_range(1..6), decay: [1.0, 0.5, 0.25][g.gen_range(0..3)], order_ratio: [0.0, 0.25, 1.0, 2.0][g.gen_range(0..4)], seed: seed + 400 + k, demand: [1.0e6, 64.0][g.gen_range(0..2)] });
+        }
+        for k in 0..6u64 {
+            let mut b = 1000u32;
+            let path: Vec<(u32, u32)> = (0..g.gen_range(4..8)).map(|_| { b = (b as i64 + [-40i64, -10, 0, 10, 40][g.gen_range(0..5)]).max(500) as u32; (b, b + 2) }).collect();
+            cases.push(AgentCase::MomentumMarket { path, n: g.gen_range(1..5), seed: seed + 500 + k, decay: [1.0, 0.5][g.gen_range(0..2)] });
+        }
     }
     for c in cases {
         let f = run_case(&c);
